@@ -237,13 +237,34 @@ Proof.
                | apply Inv_remove_cp | inv_step].
 Qed.
 
+Lemma Inv_exists_as c n : Inv (exists_as c n).
+Proof. apply Inv_get. Qed.
+
+Lemma Inv_prune_node7 nn : Inv (prune_node7 nn).
+Proof. unfold prune_node7. apply Inv_bind; [apply Inv_exists_as | intros b]. destruct b; [apply Inv_api_remove_node | apply Inv_ret]. Qed.
+Lemma Inv_prune_comp7 cn : Inv (prune_comp7 cn).
+Proof. unfold prune_comp7. apply Inv_bind; [apply Inv_exists_as | intros b]. destruct b; [apply Inv_api_remove_component | apply Inv_ret]. Qed.
+Lemma Inv_prune_ns7 s : Inv (prune_ns7 s).
+Proof. unfold prune_ns7. apply Inv_bind; [apply Inv_exists_as | intros b]. destruct b; [apply Inv_remove_ns_disconnecting | apply Inv_ret]. Qed.
+Lemma Inv_prune_if7 i : Inv (prune_if7 i).
+Proof.
+  unfold prune_if7. apply Inv_bind; [apply Inv_exists_as | intros b]. destruct b; [|apply Inv_ret].
+  repeat first [apply Inv_disconnect_step | apply Inv_remove_cp | inv_step].
+Qed.
+
+Lemma Inv_api_prune7 : Inv api_prune7.
+Proof.
+  unfold api_prune7.
+  repeat first [apply Inv_prune_node7 | apply Inv_prune_comp7 | apply Inv_prune_ns7 | apply Inv_prune_if7 | inv_step].
+Qed.
+
 Lemma Inv_exec ex o cs : Inv (exec ex o cs).
 Proof.
   unfold exec. destruct o;
     repeat first [apply Inv_api_remove_node | apply Inv_api_remove_facility | apply Inv_api_remove_switch
                  | apply Inv_api_remove_link | apply Inv_api_remove_ns_topo | apply Inv_api_remove_component
                  | apply Inv_api_node_remove_ns | apply Inv_api_disconnect | apply Inv_api_unpeer6 | apply Inv_api_unpeer
-                 | apply Inv_api_remove_interface | apply Inv_api_remove_child | apply Inv_api_prune | inv_step].
+                 | apply Inv_api_remove_interface | apply Inv_api_remove_child | apply Inv_api_prune7 | apply Inv_api_prune | inv_step].
 Qed.
 
 (* ---- the frame theorem ---- *)
